@@ -221,7 +221,7 @@ TRoots ==
 
 \* array shapes the harness has to fill (C03's FactorShapes on the matching Factorized configuration)
 TFactorShapes(c) ==
-    FactorShapes([op |-> c.kind, shape |-> c.shape, rank |-> c.rank, bad |-> "none", at |-> 0, dl |-> 0])
+    FactorShapes([op |-> c.kind, shape |-> c.shape, rank |-> c.rank, bad |-> "none", at |-> 0, dl |-> 0, modes |-> <<>>])
 TExpand(c) ==
     c @@ [fshapes |-> TFactorShapes(c),
           coreshape |-> IF c.kind = "tucker" THEN c.rank ELSE <<>>,
